@@ -760,7 +760,7 @@ func GenW(kind string, seed int64) *WScn {
 			sc.Calls = append(sc.Calls, mk(i, t))
 			sc.Acts = append(sc.Acts, WAct{Kind: "never"})
 		}
-		sc.CloseTime = t + ms(rng.Intn(9)) - ms(4)
+		sc.CloseTime = t + time.Duration(rng.Intn(6000)-1500)*time.Microsecond
 		sc.RST = rng.Intn(2) == 0
 	case "close-early": // before the join completes
 		sc.PreJoin, sc.RecordJoin = false, true
